@@ -25,3 +25,12 @@ Fixpoint map4 {A B C D E} (f : A -> B -> C -> D -> E) (a : list A) (b : list B) 
   match a, b, c, d with x :: a', y :: b', z :: c', w :: d' => f x y z w :: map4 f a' b' c' d' | _, _, _, _ => [] end.
 Definition gauss_vec (xs deltas : list f64) (box : list (f64 * f64)) : list f64 :=
   map4 gauss_gene xs deltas (map fst box) (map snd box).
+
+(* LHSDeme / SobolDeme: lower + sample * (upper - lower) per coordinate, sample in [0, 1) (qmc contract X4) *)
+Definition scale_gene (lo hi s : f64) : f64 := fadd lo (fmul s (fsub hi lo)).
+Definition pred_one : f64 := of_bits 0x3FEFFFFFFFFFFFFF.      (* the largest double below 1 *)
+(* decidable per box: everything finite, non-negative range, and the LARGEST admissible sample still lands inside *)
+Definition scale_ok (lo hi : f64) : bool :=
+  let r := fsub hi lo in
+  fis_finite lo && fis_finite hi && fis_finite r && fle (fzero false) r && fis_finite (fmul pred_one r) &&
+  fis_finite (scale_gene lo hi pred_one) && fle (scale_gene lo hi pred_one) hi.
